@@ -660,7 +660,7 @@ func anchorAdvanceRule(p *Program, r *Reporter, fn *ssa.Function) {
 					continue
 				}
 				n++
-				r.Decide(anc.Edges[i] != anc.Edges[j], "E5-ANCHORADVANCE", shortFn(fn), "cursor+1:"+anc.Comment, p.pos(bo.Pos()), "the anchor changes on the edge on which the cursor advances",
+				r.Decide(!mayBeValue(anc.Edges[i], anc.Edges[j], map[ssa.Value]bool{}), "E5-ANCHORADVANCE", shortFn(fn), "cursor+1:"+anc.Comment, p.pos(bo.Pos()), "the anchor changes on the edge on which the cursor advances",
 					"a new child is consumed (cursor + 1) while the insertion anchor keeps the value it has on a path that consumes nothing: the next inserted sibling is placed after the same old element, so a run of inserted elements ends up in reverse order", nil)
 			}
 		}
@@ -905,7 +905,18 @@ func startGuardRule(p *Program, r *Reporter, h *ssa.Function, serving ...string)
 				}
 				n++
 				guarded := false
-				for _, cd := range effectiveDomConds(b) {
+				conds := effectiveDomConds(b)
+				// success conditions of helpers, of the helpers they call, ... (three levels)
+				for lvl, from := 0, 0; lvl < 3; lvl++ {
+					end := len(conds)
+					for _, cd := range conds[from:end] {
+						if call, idx, errForm, ok := calleeOfCondition(cd); ok {
+							conds = append(conds, summaryDominating(call, idx, errForm)...)
+						}
+					}
+					from = end
+				}
+				for _, cd := range conds {
 					bo, isBin := cd.V.(*ssa.BinOp)
 					if !isBin {
 						continue
@@ -927,5 +938,418 @@ func startGuardRule(p *Program, r *Reporter, h *ssa.Function, serving ...string)
 	}
 	if n == 0 {
 		r.Broken("%s: no segment-serving call found", shortFn(h))
+	}
+}
+
+// allPathsDepends: on every path v is computed from a value satisfying pred (phi: all edges; arithmetic and
+// calls: some operand; a local variable: all its stores). Constants and parameters do not qualify.
+func allPathsDepends(v ssa.Value, pred func(ssa.Value) bool, seen map[ssa.Value]bool) bool {
+	if pred(v) {
+		return true
+	}
+	if seen[v] {
+		return true // a cycle adds no new source
+	}
+	seen[v] = true
+	switch x := v.(type) {
+	case *ssa.Phi:
+		for _, e := range x.Edges {
+			if !allPathsDepends(e, pred, seen) {
+				return false
+			}
+		}
+		return len(x.Edges) > 0
+	case *ssa.Convert:
+		return allPathsDepends(x.X, pred, seen)
+	case *ssa.ChangeType:
+		return allPathsDepends(x.X, pred, seen)
+	case *ssa.BinOp:
+		return allPathsDepends(x.X, pred, seen) || allPathsDepends(x.Y, pred, seen)
+	case *ssa.UnOp:
+		if x.Op == token.MUL {
+			if al, ok := x.X.(*ssa.Alloc); ok && al.Referrers() != nil {
+				n := 0
+				for _, ref := range *al.Referrers() {
+					if st, ok := ref.(*ssa.Store); ok && st.Addr == ssa.Value(al) {
+						n++
+						if !allPathsDepends(st.Val, pred, seen) {
+							return false
+						}
+					}
+				}
+				return n > 0
+			}
+			return false
+		}
+		return allPathsDepends(x.X, pred, seen)
+	case *ssa.Call:
+		for _, a := range x.Call.Args {
+			if allPathsDepends(a, pred, seen) {
+				return true
+			}
+		}
+	case *ssa.Extract:
+		return allPathsDepends(x.Tuple, pred, seen)
+	}
+	return false
+}
+
+// offsetAlwaysRule (C02): the availability time offset that the MPD side hands to the SegmentTimeline
+// generator is the configured offset on every path on which the adaptation set is set up successfully: the
+// segment server subtracts the offset for every request, complete segments or not.
+func offsetAlwaysRule(p *Program, r *Reporter) {
+	r.Rule("E4-ATOALWAYS", "the offset returned for the timeline generator is computed from the configured availabilityTimeOffset on every successful path", 1)
+	fn := p.mustFunc(r, pkgApp, "setOffsetInAdaptationSet")
+	if fn == nil {
+		return
+	}
+	isAto := func(v ssa.Value) bool {
+		if c, ok := v.(*ssa.Call); ok && c.Call.StaticCallee() != nil && c.Call.StaticCallee().Name() == "getAvailabilityTimeOffsetS" {
+			return true
+		}
+		f, ok := loadedField(v)
+		return ok && strings.HasPrefix(f, "app.ResponseConfig.AvailabilityTimeOffsetS")
+	}
+	n := 0
+	for _, b := range fn.Blocks {
+		ret, ok := b.Instrs[len(b.Instrs)-1].(*ssa.Return)
+		if !ok || len(ret.Results) == 0 || isErrorExit(b) || !ret.Pos().IsValid() {
+			continue
+		}
+		n++
+		r.Decide(allPathsDepends(ret.Results[0], isAto, map[ssa.Value]bool{}), "E4-ATOALWAYS", shortFn(fn), "return:atoMS", p.pos(ret.Pos()), "computed from the configured offset on every path",
+			"on some path the offset handed to the timeline generator is not the configured one (e.g. only set for low-latency mode): the MPD's newest entry then lags behind what the server, which always subtracts the offset, already serves", nil)
+	}
+	if n == 0 {
+		r.Broken("setOffsetInAdaptationSet: no successful return found")
+	}
+}
+
+// mayBeValue: v is old, or a phi one of whose edges may be old (the value is kept on some path).
+func mayBeValue(v, old ssa.Value, seen map[ssa.Value]bool) bool {
+	if v == old {
+		return true
+	}
+	if seen[v] {
+		return false
+	}
+	seen[v] = true
+	if ph, ok := v.(*ssa.Phi); ok {
+		for _, e := range ph.Edges {
+			if mayBeValue(e, old, seen) {
+				return true
+			}
+		}
+	}
+	return false
+}
+
+// periodCutRule (C06): a segment belongs to the period that contains its START. In the function that cuts a
+// SegmentTimeline to a period, every comparison with the period's start or end has the running segment
+// start itself on the other side (no duration added to it), in the half-open forms start < periodStart
+// (before the period) and start >= periodEnd (past it).
+func periodCutRule(p *Program, r *Reporter, fn *ssa.Function) {
+	r.Rule("E5-PERIODCUT", "the period cut compares start times with the period bounds in the half-open forms (< start, >= end)", 2)
+	var startPrm, endPrm *ssa.Parameter
+	for _, prm := range fn.Params {
+		switch prm.Name() {
+		case "periodStartS":
+			startPrm = prm
+		case "periodEndS":
+			endPrm = prm
+		}
+	}
+	if startPrm == nil || endPrm == nil {
+		r.Broken("%s: period bound parameters not found", shortFn(fn))
+		return
+	}
+	n := 0
+	for _, b := range fn.Blocks {
+		for _, in := range b.Instrs {
+			bo, ok := in.(*ssa.BinOp)
+			if !ok {
+				continue
+			}
+			switch bo.Op {
+			case token.LSS, token.LEQ, token.GTR, token.GEQ:
+			default:
+				continue
+			}
+			side := func(v ssa.Value) string {
+				ds, de := localDependsOnParam(p, v, startPrm), localDependsOnParam(p, v, endPrm)
+				switch {
+				case ds && !de:
+					return "start"
+				case de && !ds:
+					return "end"
+				}
+				return ""
+			}
+			bx, by := side(bo.X), side(bo.Y)
+			if (bx == "") == (by == "") {
+				continue
+			}
+			bound, other, op := by, bo.X, bo.Op
+			if bx != "" {
+				// bound OP other  ==>  other OP' bound
+				bound, other = bx, bo.Y
+				switch op {
+				case token.LSS:
+					op = token.GTR
+				case token.LEQ:
+					op = token.GEQ
+				case token.GTR:
+					op = token.LSS
+				case token.GEQ:
+					op = token.LEQ
+				}
+			}
+			n++
+			_ = other
+			okForm := (bound == "start" && (op == token.LSS || op == token.GEQ)) || (bound == "end" && (op == token.GEQ || op == token.LSS))
+			msg := ""
+			if !okForm {
+				msg = "the comparison with the period " + bound + " is not the half-open form (a start time < periodStart / >= periodEnd): a segment starting exactly on the boundary, or ending just after it, is placed in the wrong period or in none"
+			}
+			r.Decide(msg == "", "E5-PERIODCUT", shortFn(fn), "compare:period-"+bound, p.pos(bo.Pos()), "segment start compared half-open with the period "+bound, msg, nil)
+		}
+	}
+	if n == 0 {
+		r.Broken("%s: no comparison with the period bounds found", shortFn(fn))
+	}
+}
+
+// exactEarlyRule (C04/C09): the decision "too early" compares the availability time with the request time as
+// they are; a rounded difference lets a request that is a fraction of a millisecond early through.
+func exactEarlyRule(p *Program, r *Reporter) {
+	r.Rule("E5-EXACTEARLY", "the too-early decision is an unrounded comparison of availability time and request time", 1)
+	ctv := p.mustFunc(r, pkgApp, "CheckTimeValidity")
+	ne := p.lookupFunc(pkgApp, "newErrTooEarly")
+	if ctv == nil || ne == nil {
+		return
+	}
+	n := 0
+	for _, s := range callsTo(p, ne) {
+		if !inClusterList(cluster(ctv), s.Parent()) {
+			continue
+		}
+		for _, cd := range effectiveCDeps(s.Block(), false) {
+			bo, ok := cd.V.(*ssa.BinOp)
+			if !ok {
+				continue
+			}
+			n++
+			rc := roundingCallsInSlice(p, bo)
+			seen := map[ssa.Value]bool{}
+			sliceVisit(p, bo, true, func(x ssa.Value) {
+				if seen[x] {
+					return
+				}
+				seen[x] = true
+				if c, ok := x.(*ssa.Call); ok && c.Call.StaticCallee() != nil {
+					switch c.Call.StaticCallee().String() {
+					case "math.Floor", "math.Trunc":
+						rc = append(rc, c.Call.StaticCallee().String()+" at "+p.pos(c.Pos()))
+					}
+				}
+				if cv, ok := x.(*ssa.Convert); ok && isFloatType(cv.X.Type()) && isIntegerType(cv.Type()) {
+					rc = append(rc, "float-to-integer conversion at "+p.pos(cv.Pos()))
+				}
+			})
+			r.Decide(len(rc) == 0, "E5-EXACTEARLY", shortFn(s.Parent()), "too-early-test", p.pos(bo.Pos()), "no rounding in the compared values",
+				"the too-early test works on rounded values ("+strings.Join(rc, ", ")+"): a request made a fraction of a millisecond before the availability time is served instead of refused", nil)
+		}
+	}
+	if n == 0 {
+		r.Broken("CheckTimeValidity: no condition guarding the too-early error found")
+	}
+}
+
+// encryptBeforeWriteRule (C10): in chunked delivery every path to a chunk write either passes an encryption
+// call or the 'no DRM requested' edge of a test of the DRM setting (checked per function: the delivery
+// function itself and each closure it creates).
+func encryptBeforeWriteRule(p *Program, r *Reporter, wcs *ssa.Function) {
+	r.Rule("E5-ENCBEFOREWRITE", "every path to a chunk write passes the encryption call or the no-DRM edge", 1)
+	n := 0
+	isEnc := func(b *ssa.BasicBlock) bool {
+		for _, in := range b.Instrs {
+			if c, ok := in.(*ssa.Call); ok && c.Call.StaticCallee() != nil && c.Call.StaticCallee().Name() == "encryptFrags" {
+				return true
+			}
+		}
+		return false
+	}
+	// blocks of fn reachable from its entry without executing encryptFrags and without taking a no-DRM edge
+	uncovered := func(fn *ssa.Function) map[*ssa.BasicBlock]bool {
+		reach := map[*ssa.BasicBlock]bool{}
+		var work []*ssa.BasicBlock
+		if len(fn.Blocks) > 0 {
+			work = append(work, fn.Blocks[0])
+		}
+		for len(work) > 0 {
+			b := work[0]
+			work = work[1:]
+			if reach[b] {
+				continue
+			}
+			reach[b] = true
+			if isEnc(b) {
+				continue
+			}
+			skip := -1
+			if ifi, ok := b.Instrs[len(b.Instrs)-1].(*ssa.If); ok {
+				if bo, ok := ifi.Cond.(*ssa.BinOp); ok && (bo.Op == token.NEQ || bo.Op == token.EQL) {
+					if f, ok := loadedField(bo.X); ok && f == "app.ResponseConfig.DRM" {
+						if s, ok := constString(bo.Y); ok && s == "" {
+							skip = 1
+							if bo.Op == token.EQL {
+								skip = 0
+							}
+						}
+					}
+				}
+			}
+			for i, s := range b.Succs {
+				if i != skip {
+					work = append(work, s)
+				}
+			}
+		}
+		return reach
+	}
+	unc := map[*ssa.Function]map[*ssa.BasicBlock]bool{}
+	get := func(fn *ssa.Function) map[*ssa.BasicBlock]bool {
+		if m, ok := unc[fn]; ok {
+			return m
+		}
+		unc[fn] = uncovered(fn)
+		return unc[fn]
+	}
+	// a private helper is entered uncovered only if its single call site is uncovered in the caller
+	var enteredUncovered func(fn *ssa.Function, depth int) bool
+	enteredUncovered = func(fn *ssa.Function, depth int) bool {
+		if fn == wcs || fn.Parent() != nil || depth > 3 {
+			return true
+		}
+		site := uniqueCallSite(fn)
+		if site == nil {
+			return true
+		}
+		caller := site.Parent()
+		return get(caller)[site.Block()] && !isEnc(site.Block()) && enteredUncovered(caller, depth+1)
+	}
+	var fns []*ssa.Function
+	for _, fn := range cluster(wcs) {
+		fns = append(fns, fn)
+		fns = append(fns, fn.AnonFuncs...)
+	}
+	for _, fn := range fns {
+		for _, b := range fn.Blocks {
+			for _, in := range b.Instrs {
+				c, ok := in.(*ssa.Call)
+				if !ok || c.Call.StaticCallee() == nil || c.Call.StaticCallee().Name() != "writeChunk" {
+					continue
+				}
+				n++
+				bad := get(fn)[b] && !isEnc(b) && enteredUncovered(fn, 0)
+				r.Decide(!bad, "E5-ENCBEFOREWRITE", shortFn(fn), "call:writeChunk", p.pos(c.Pos()), "behind encryptFrags or the no-DRM edge on every path",
+					"a chunk can be written on a path that neither encrypts it nor is the no-DRM path: with DRM requested this chunk goes out in the clear inside an encrypted segment", nil)
+			}
+		}
+	}
+	if n == 0 {
+		r.Broken("writeChunkedSegment: no chunk write found")
+	}
+}
+
+// truncRule (C15): a metadata file is written from scratch: os.Create, or os.OpenFile with O_TRUNC. Without
+// truncation a shorter rewrite leaves the tail of the old file behind and the file no longer decodes.
+func truncRule(p *Program, r *Reporter, anchors ...*ssa.Function) {
+	r.Rule("E5-TRUNC", "files opened for writing by the metadata writer are truncated", 0)
+	for fn := range staticReach(p, anchors...) {
+		for _, b := range fn.Blocks {
+			for _, in := range b.Instrs {
+				c, ok := in.(*ssa.Call)
+				if !ok || c.Call.StaticCallee() == nil || c.Call.StaticCallee().String() != "os.OpenFile" || len(c.Call.Args) < 2 {
+					continue
+				}
+				flags, ok := constInt(c.Call.Args[1])
+				if !ok {
+					continue
+				}
+				const oWRONLY, oRDWR, oAPPEND, oEXCL, oTRUNC = 0x1, 0x2, 0x400, 0x80, 0x200
+				if flags&(oWRONLY|oRDWR) == 0 {
+					continue
+				}
+				r.Decide(flags&(oTRUNC|oAPPEND|oEXCL) != 0, "E5-TRUNC", shortFn(fn), "call:os.OpenFile", p.pos(c.Pos()), "opened with O_TRUNC, O_APPEND or O_EXCL",
+					"the file is opened for writing without O_TRUNC: rewriting it with a shorter content leaves the old tail behind (a gzip metadata file then fails to decode on the next start)", nil)
+			}
+		}
+	}
+}
+
+// sameNumberRule (C17): the file that is removed when a segment leaves the window is named by the same field
+// of the received-segment record as the file that was created for it.
+func sameNumberRule(p *Program, r *Reporter, h *ssa.Function) {
+	r.Rule("E4-SAMENUMBER", "stored and removed segment files are named by the same sequence-number field", 1)
+	fieldsOf := func(v ssa.Value) map[string]bool {
+		out := map[string]bool{}
+		seen := map[ssa.Value]bool{}
+		sliceVisitUntil(p, v, true, func(x ssa.Value) {
+			if seen[x] {
+				return
+			}
+			seen[x] = true
+			if f, ok := loadedField(x); ok && strings.HasPrefix(f, "recv.recSegData.") && strings.Contains(strings.ToLower(f), "seqnr") {
+				out[f] = true
+			}
+		}, func(x ssa.Value) bool {
+			f, ok := loadedField(x)
+			return ok && strings.HasPrefix(f, "recv.recSegData.") // the field named in the path, not what it was computed from
+		})
+		return out
+	}
+	var created, removed []map[string]bool
+	var rmPos token.Pos
+	for fn := range staticReach(p, h) {
+		for _, b := range fn.Blocks {
+			for _, in := range b.Instrs {
+				c, ok := in.(*ssa.Call)
+				if !ok || c.Call.StaticCallee() == nil || len(c.Call.Args) == 0 {
+					continue
+				}
+				switch c.Call.StaticCallee().String() {
+				case "os.Create":
+					if f := fieldsOf(c.Call.Args[0]); len(f) > 0 {
+						created = append(created, f)
+					}
+				case "os.Remove":
+					if f := fieldsOf(c.Call.Args[0]); len(f) > 0 {
+						removed = append(removed, f)
+						rmPos = c.Pos()
+					}
+				}
+			}
+		}
+	}
+	if len(created) == 0 || len(removed) == 0 {
+		r.Broken("receiver: segment file creation (%d) or removal (%d) by sequence number not found", len(created), len(removed))
+		return
+	}
+	for _, rm := range removed {
+		ok := false
+		for _, cr := range created {
+			same := len(cr) == len(rm)
+			for f := range rm {
+				if !cr[f] {
+					same = false
+				}
+			}
+			if same {
+				ok = true
+			}
+		}
+		r.Decide(ok, "E4-SAMENUMBER", shortFn(h), "os.Remove.path", p.pos(rmPos), "named by the same record field as the created file",
+			"the file removed when a segment leaves the window is named by "+strings.Join(sortedKeys(rm), ", ")+", the stored files by another field: when incoming and stored numbers differ the wrong file (or none) is deleted", nil)
 	}
 }
